@@ -7,7 +7,7 @@ CONSTANTS
   FullLen = 3
   Core = {}
   Families = {"rich", "rand"}
-  NRand = 24
+  NRand = 16
   RandSize = 10
 INVARIANT TreesOK0
 INVARIANT Emit
